@@ -6,6 +6,8 @@ func dispatch16(cmd string, out *cq.Out, seed uint64, tier, arg string) bool {
 	switch cmd {
 	case "cmdwire":
 		cmdwireCmd(out, seed, tier)
+	case "server":
+		serverCmd(out, seed, tier)
 	default:
 		return false
 	}
